@@ -1,6 +1,8 @@
 package types
 
 import (
+	"fmt"
+
 	sdk "github.com/cosmos/cosmos-sdk/types"
 )
 
@@ -20,10 +22,17 @@ func DefaultParams() Params {
 
 // Validate validates the set of params
 func (p Params) Validate() error {
+	seen := make(map[string]bool)
 	for _, denom := range p.AllowedDenoms {
 		if err := sdk.ValidateDenom(denom); err != nil {
 			return err
 		}
+
+		// a denom listed twice would be counted twice in the staked power
+		if seen[denom] {
+			return fmt.Errorf("duplicate allowed denom: %s", denom)
+		}
+		seen[denom] = true
 	}
 
 	return nil
